@@ -57,7 +57,7 @@ Proof.
     destruct ((0 <=? n) && (n <=? 16)) eqn:E.
     + rewrite small_int_lookup by lia. destruct (n =? 0) eqn:E0; [reflexivity|].
       replace ((1 <=? n) && (n <=? 16)) with true by lia. reflexivity.
-    + unfold push_integer. destruct (n <? 0) eqn:En; [lia|].
+    + unfold push_integer. destruct (n <=? 0) eqn:En; [lia|].
       destruct (n =? 0) eqn:E0; [lia|].
       replace ((1 <=? n) && (n <=? 16)) with false by lia.
       rewrite payload_is_spec by lia. now rewrite op_push_data_spec.
@@ -136,7 +136,7 @@ Proof.
       destruct (op_lookup_facts _ _ Hs) as (b' & [= <-] & F).
       destruct (of_code _ _ F) as (nm' & Hc & _). unfold canon_byte. rewrite Hc.
       apply op_byte_step; [exact Hc|]. unfold is_pd, b. destruct (n =? 0) eqn:E0; lia.
-    + unfold push_integer in Hb. destruct (n <? 0) eqn:En; [lia|].
+    + unfold push_integer in Hb. destruct (n <=? 0) eqn:En; [lia|].
       assert (Hn : 0 < n) by lia.
       rewrite payload_is_spec in * by lia.
       rewrite op_push_data_spec in Hb by exact Hl. injection Hb as <-.
@@ -220,7 +220,7 @@ Proof.
       destruct (op_lookup_facts _ _ Hs) as (b' & [= <-] & F).
       destruct (of_code _ _ F) as (nm' & Hc & Ho). unfold canon_byte. rewrite Hc.
       cbn [tok_to_bytes]. now rewrite Ho, Hs.
-    + cbn [tok_to_bytes]. unfold push_integer. destruct (n <? 0) eqn:En; [lia|]. reflexivity.
+    + cbn [tok_to_bytes]. unfold push_integer. destruct (n <=? 0) eqn:En; [lia|]. reflexivity.
   - cbn [wf_tok] in Hw. destruct d as [|x d']; [|reflexivity].
     cbn [canon_tok]. destruct (code_lookup_special 0 ltac:(cbn; tauto)) as [nm Hc].
     unfold canon_byte. rewrite Hc. cbn [tok_to_bytes].
